@@ -575,9 +575,11 @@ Definition gmd_ok (g : list (str * (str * str))) : Prop :=
   NoDup (map fst g)
   /\ Forall (fun e => text (fst e) /\ has_slash (fst e) = false /\ text (fst (snd e)) /\ text (snd (snd e))) g.
 Definition opt_ok (o : option str) : Prop := match o with Some s => s <> [] /\ text s | None => True end.
+(* a table id may be absent or empty: both are written as the placeholder *)
+Definition id_ok (o : option str) : Prop := match o with Some s => text s | None => True end.
 Definition meta_ok (st : state) : Prop :=
   md_homogeneous (st_omd st) (length (st_oids st)) /\ md_homogeneous (st_smd st) (length (st_sids st))
-  /\ gmd_ok (st_ogmd st) /\ gmd_ok (st_sgmd st) /\ opt_ok (st_type st) /\ opt_ok (st_id st).
+  /\ gmd_ok (st_ogmd st) /\ gmd_ok (st_sgmd st) /\ opt_ok (st_type st) /\ id_ok (st_id st).
 
 (* metadata agreement as dictionaries: same categories, same value per ID and category *)
 Definition row_agree (a b : mdrow) : Prop :=
@@ -594,3 +596,47 @@ Definition md_norm (md : option (list mdrow)) : option (list mdrow) :=
   | Some rows => if existsb (fun r => match r with [] => false | _ => true end) rows then md else None
   | None => None
   end.
+
+(* ------------------------------------------------------------------ deciding the hypotheses *)
+(* boolean versions of the hypotheses of hdf5_roundtrip / hdf5_conforms (sound: Hdf5Proofs.in_domainb_sound).
+   The correspondence run evaluates them on every case, so the evidence says how many of the
+   files actually written lie inside the theorems' domain. *)
+Definition is_nil {A} (l : list A) : bool := match l with [] => true | _ => false end.
+Definition wf_stateb (st : state) : bool :=
+  wf_csb (st_cs st) && Nat.eqb (length (st_oids st)) (st_nobs st) && Nat.eqb (length (st_sids st)) (st_nsamp st)
+  && negb (sdup (st_oids st)) && negb (sdup (st_sids st)) && forallb textb (st_oids st) && forallb textb (st_sids st).
+Definition list_okb (v : mdval) : bool :=
+  match v with
+  | MList l => negb (is_nil l) && forallb (fun s => negb (is_nil s) && textb s) l
+  | _ => false
+  end.
+Definition str_okb (v : mdval) : bool := match v with MStr s => textb s | _ => false end.
+Definition column_okb (k : str) (col : list mdval) : bool :=
+  if reserved k then forallb list_okb col
+  else forallb str_okb col || forallb is_int col || forallb is_float col || forallb is_bool col.
+Definition cat_okb (k : str) : bool := textb k && lz_eqb (unsanitize (sanitize k)) k.
+Definition md_homogeneousb (md : option (list mdrow)) (n : nat) : bool :=
+  match md with
+  | None => true
+  | Some rows =>
+    Nat.eqb (length rows) n &&
+    match rows with
+    | [] => true
+    | r0 :: rest =>
+      negb (is_nil r0) && negb (sdup (mdkeys r0)) && forallb cat_okb (mdkeys r0)
+      && forallb (fun r => negb (sdup (mdkeys r)) && same_keys r r0) rest
+      && forallb (fun k => column_okb k (column rows k)) (mdkeys r0)
+    end
+  end.
+Definition gmd_okb (g : list (str * (str * str))) : bool :=
+  negb (sdup (map fst g))
+  && forallb (fun e => textb (fst e) && negb (has_slash (fst e)) && textb (fst (snd e)) && textb (snd (snd e))) g.
+Definition opt_okb (o : option str) : bool := match o with Some s => negb (is_nil s) && textb s | None => true end.
+Definition id_okb (o : option str) : bool := match o with Some s => textb s | None => true end.
+Definition meta_okb (st : state) : bool :=
+  md_homogeneousb (st_omd st) (length (st_oids st)) && md_homogeneousb (st_smd st) (length (st_sids st))
+  && gmd_okb (st_ogmd st) && gmd_okb (st_sgmd st) && opt_okb (st_type st) && id_okb (st_id st).
+Definition type_in_vocabb (st : state) : bool :=
+  match st_type st with None => true | Some s => existsb (lz_eqb s) vocabulary end.
+Definition in_domainb (st : state) (genby date : str) : bool :=
+  wf_stateb st && meta_okb st && textb genby && textb date.
